@@ -426,6 +426,9 @@ def run_tlc(module, cfg, env=None, workers=1, simulate=None, depth=None, seed=No
             r.violation = "action property " + m.group(1)
         if "Temporal properties were violated" in line:
             r.violation = "temporal property"
+        m = re.match(r"Error: Temporal property (\S+) was violated", line)
+        if m:
+            r.violation = "temporal property " + m.group(1)
         if line.startswith("Error: Deadlock reached"):
             r.violation = "deadlock"
         m = re.match(r"<(\w+) line \d+, col \d+ to line \d+, col \d+ of module (\w+)>: (\d+):(\d+)", line)
